@@ -134,11 +134,12 @@ func checkC09(c *Ctx) {
 		}
 		fn := shortFn(su)
 		// waiter started after the unlock
-		var waiter *ssa.Go
+		var waiter ssa.Instruction
 		for _, g0 := range sortedFns(m.staticReach(su, false)) {
 			eachInstr(g0, func(in ssa.Instruction) {
-				if g, ok := in.(*ssa.Go); ok {
-					for _, t := range m.funcValueTargets(g.Call.Value) {
+				if sp := m.spawnAt(in); sp != nil {
+					g := in
+					for _, t := range sp.Targets {
 						isWait := false
 						eachInstr(t, func(x ssa.Instruction) {
 							if m.isWGCall(x, "Wait") {
@@ -194,23 +195,18 @@ func checkC09(c *Ctx) {
 
 	// ---- R2 goroutine inventory -------------------------------------------------------
 	nGo := 0
-	for _, f := range m.Funcs {
-		eachInstr(f, func(in ssa.Instruction) {
-			g, ok := in.(*ssa.Go)
-			if !ok {
-				return
-			}
-			var targets []*ssa.Function
-			if sc := g.Call.StaticCallee(); sc != nil {
-				targets = append(targets, sc)
-			}
-			targets = append(targets, m.funcValueTargets(g.Call.Value)...)
-			targets = dedupFns(targets)
+	goOrd := map[*ssa.Function]int{}
+	for _, sp := range m.Spawns() {
+		func() {
+			f, in, g := sp.Fn, sp.At, sp.Go
+			_ = g
+			targets := sp.Targets
+			goOrd[f]++
 			desc := "function value"
 			if len(targets) > 0 {
 				desc = shortFn(targets[0])
 			}
-			key := fmt.Sprintf("go #%d in %s (%s)", ordinalOf(f, in, func(x ssa.Instruction) bool { _, ok := x.(*ssa.Go); return ok }), shortFn(f), desc)
+			key := fmt.Sprintf("go #%d in %s (%s)", goOrd[f], shortFn(f), desc)
 			// adapters and helpers that do not belong to the election object
 			recvName := ""
 			if t := topFunc(f); t.Signature.Recv() != nil {
@@ -230,7 +226,7 @@ func checkC09(c *Ctx) {
 			switch {
 			case len(targets) == 0 && m.invokesFieldValue(in, m.OnDemote):
 				c.ok("R2", key, in, "callback goroutine (no store operation of the library reachable)")
-			case m.goTracked(g):
+			case sp.Tracked:
 				c.ok("R2", key, in, "tracked: wg.Add(1) before go, deferred wg.Done first in the goroutine")
 			case !reachStore:
 				c.ok("R2", key, in, "waiter / callback / forwarding goroutine: no store operation reachable")
@@ -273,7 +269,7 @@ func checkC09(c *Ctx) {
 						"this goroutine can issue store operations and is not registered with the election's WaitGroup: Stop/StopWithContext return while it is still running, and it issues Create/Get/Update after Stop has returned (it may have passed its ctx.Done() test just before the stop)")
 				}
 			}
-		})
+		}()
 	}
 	if nGo < 8 {
 		c.undecided("R2", "instance-floor", nil, "only %d go statements found; at least 8 on the reference tree", nGo)
@@ -359,12 +355,15 @@ func checkC09(c *Ctx) {
 	// ---- R5 -----------------------------------------------------------------------
 	nDel := 0
 	for _, op := range m.StoreOps() {
-		if op.Method != "Delete" || !containsFn(m.StopUnits, op.Fn) {
+		if op.Method != "Delete" {
+			continue
+		}
+		if _, _, ok := m.stopFrame(op.Call); !ok {
 			continue
 		}
 		nDel++
 		var foreign []string
-		for _, l := range m.GuardsAt(op.Call) {
+		for _, l := range m.AllGuards(op.Call, false) {
 			s := l.S.String()
 			switch {
 			case strings.Contains(s, "DeleteKey"):
@@ -377,7 +376,7 @@ func checkC09(c *Ctx) {
 			}
 		}
 		c.check(len(foreign) == 0, "R5", "Delete depends only on DeleteKey, ownership and the completed wait in "+shortFn(op.Fn), op.Call, "other conditions on the way to Delete: %v", foreign)
-		for _, l := range m.GuardsAt(op.Call) {
+		for _, l := range m.AllGuards(op.Call, false) {
 			if g := calleeOfSym(l.S); l.S.Op == "call" && g != nil && m.isLib(g) && m.isOwnershipCheck(g) {
 				m.ownershipExtras[g] = nil
 				m.isOwnershipCheck(g)
@@ -490,7 +489,7 @@ func checkC09(c *Ctx) {
 	}
 }
 
-func waiterOrFirst(g *ssa.Go, f *ssa.Function) ssa.Instruction {
+func waiterOrFirst(g ssa.Instruction, f *ssa.Function) ssa.Instruction {
 	if g != nil {
 		return g
 	}
@@ -558,25 +557,14 @@ func (m *Model) trackedOnlyFuncs() map[*ssa.Function]bool {
 	// roots: closures spawned by tracked go statements; direct targets of tracked go
 	trackedRoot := map[*ssa.Function]bool{}
 	untrackedRoot := map[*ssa.Function]bool{}
-	for _, f := range m.Funcs {
-		eachInstr(f, func(in ssa.Instruction) {
-			g, ok := in.(*ssa.Go)
-			if !ok {
-				return
+	for _, sp := range m.Spawns() {
+		for _, t := range sp.Targets {
+			if sp.Tracked {
+				trackedRoot[t] = true
+			} else {
+				untrackedRoot[t] = true
 			}
-			var targets []*ssa.Function
-			if sc := g.Call.StaticCallee(); sc != nil {
-				targets = append(targets, sc)
-			}
-			targets = append(targets, m.funcValueTargets(g.Call.Value)...)
-			for _, t := range targets {
-				if m.goTracked(g) {
-					trackedRoot[t] = true
-				} else {
-					untrackedRoot[t] = true
-				}
-			}
-		})
+		}
 	}
 	res := map[*ssa.Function]bool{}
 	var isTracked func(f *ssa.Function, seen map[*ssa.Function]bool) bool
@@ -604,7 +592,7 @@ func (m *Model) trackedOnlyFuncs() map[*ssa.Function]bool {
 		}
 		for _, cs := range sites {
 			if cs.IsGo {
-				if !m.goTracked(cs.Instr.(*ssa.Go)) {
+				if sp := m.spawnAt(cs.Instr); sp == nil || !sp.Tracked {
 					return false
 				}
 				continue
